@@ -177,6 +177,8 @@ def _w_leaves(root, op):
             return 'newer'
         return 'cur' if v == cur else ('v10' if v == '1.0' else 'old')
     out['vclass'] = {rel: vclass(h) for rel, h in out['heads'].items()}
+    if op != 'load':       # the upgrade converts no sensor, pose, record or point: nothing of this is queried
+        tb = {p: t for p, t in tb.items() if p.startswith('reconstruction/') and not p.endswith('points3d.txt')}
     out['sensor_ok'] = [row[1:] for row in tb.get(SENSORS, []) if len(row) >= 3 and
                         _w_ok(kapture.create_sensor, row[2], row[3:], row[1])]
     out['pose_ok'] = [row[2:] for row in tb.get('sensors/rigs.txt', []) if len(row) == 9 and
@@ -193,7 +195,7 @@ def _w_leaves(root, op):
                      _w_ok(cls.record_type, *row[2:])]
     out['rec_ok'] = rec
     p3 = os.path.join(root, 'reconstruction', 'points3d.txt')
-    out['p3d_ok'] = os.path.isfile(p3) and _w_ok(kcsv.points3d_from_file, p3)
+    out['p3d_ok'] = op == 'load' and os.path.isfile(p3) and _w_ok(kcsv.points3d_from_file, p3)
     # file system: which of the feature folders exist, their entries in the order os.listdir gives them
     out['dirs'] = {}
     for kind, (dname, cfg, ext, _) in FEAT.items():
@@ -231,10 +233,7 @@ def _w_run(op, root, up_types):
         upgrade_1_0_to_1_1_inplace(root, kt, dt, gt, 'L2', 'L2')
 
 
-def _w_case(req):
-    root, base, op = req['root'], req['base'], req['op']
-    os.chdir(base)
-    res = {}
+def _w_measure_leaves(root, op, res):
     del _EVENTS[:]
     mods0 = set(sys.modules)
     _ACTIVE[0] = True
@@ -243,9 +242,17 @@ def _w_case(req):
     finally:
         _ACTIVE[0] = False
     res['leaves'] = leaves
-    res['leaf_events'] = [[k, _rel(p, root), d] for k, p, d in _EVENTS
-                          if k not in ('Read', 'List')]
+    res['leaf_events'] = [[k, _rel(p, root), d] for k, p, d in _EVENTS if k not in ('Read', 'List')]
     res['leaf_modules'] = sorted(set(sys.modules) - mods0)
+    del _EVENTS[:]
+
+
+def _w_case(req):
+    root, base, op = req['root'], req['base'], req['op']
+    os.chdir(base)
+    res = {}
+    if op != 'load':
+        _w_measure_leaves(root, op, res)      # the upgrade rewrites the tree: measure before
     del _EVENTS[:]
     importable = bool(req.get('importable'))
     if importable:
@@ -272,6 +279,8 @@ def _w_case(req):
         os.chdir(base)
     res['events'] = [[k, _rel(p, root), d] for k, p, d in _EVENTS]
     del _EVENTS[:]
+    if op == 'load':
+        _w_measure_leaves(root, op, res)      # after the load, so that the load itself is seen doing the first import
     return res
 
 
